@@ -85,6 +85,13 @@ def gen(chk, tier):
     for (nonce, aad, pt, ts) in other:
         for path in ("generic", "wrapped"):
             seal("path_" + path, key, nonce, aad, pt, tagsize=ts, path=path)
+    # (6b) lengths around 2^16 (a 16- or 32-bit truncation of a length shows only there)
+    for n in ([65548] if q else [65535, 65536, 65537, 65548, 131084]):
+        seal("nonce_len_16bit", key, rb(rng, n), rb(rng, 3), rb(rng, 20))
+    for al in ([65536 + 5] if q else [65535, 65536, 65536 + 5, 65536 + 128]):
+        seal("aad_len_16bit", key, rb(rng, 12), rb(rng, al), rb(rng, 7))
+    for tl in ([] if q else [65535, 65536, 65536 + 21, 65536 + 256, 131072 + 3]):
+        seal("text_len_16bit", key, rb(rng, 12), rb(rng, 3), rb(rng, tl))
     # (7) seeded random, several keys
     for _ in range(20 if q else 1500):
         k2 = rb(rng, 16)
@@ -111,7 +118,7 @@ def cost(g):
 def run(tier):
     chk = Check(PROP, tier)
     chk.model("MC_Vectors")
-    chk.exec_and_validate("T_GCM", gen(chk, tier), keyfn, cost=cost)
+    chk.exec_and_validate("T_GCM", gen(chk, tier), keyfn, cost=cost, accel=True, pure_budget=14000000)
     return chk.finish(
         "model_checking",
         "Seal through the public AEAD on three implementation paths (fused assembly, standard-library generic GCM over "
